@@ -12,6 +12,8 @@ var zzC02Menu = []string{
 	"n{... on Obj{x} ... on Other{z}}", "n{... on Query{a}}", "n{id x}", "u{id}", "u{__typename ... on Obj{id}}", "o{...OF}", "o{...F}",
 	"o{x} o{y}", "o{x:y} o{x}", "x:i(v:1) x:i(v:2)", "...X1", "n{... on Obj{t:x} ... on Other{t:z}}", "n{... on Obj{t:x} ... on Node{t:id}}", "ol{x} ol{y}", "o{o{x}} o{o{x:y}}",
 	"ol{... {x}}", "onn{... @skip(if:true){y}}", "ol{... on Obj{x}}",
+	// the same key under mutually exclusive parents: a leaf against a composite value, lists and non-null wrappers
+	"n{... on Obj{t:o{id}} ... on Other{t:z}}", "n{... on Other{t:z} ... on Obj{t:o{id}}}", "n{... on Obj{t:ynn} ... on Other{t:z}}", "u{... on Obj{t:o{id}} ... on Other{t:id}}",
 	"__typename", "__schema{types{name}}", "__type(name:\"Obj\"){name}", "__type(name:1){name}", "__type{name}",
 }
 
